@@ -21,12 +21,15 @@ EXTENDS Naturals, Integers, Sequences, FiniteSets, TLC, Json
 CONSTANTS N,          \* ring size (power of two)
           BCAST,      \* TRUE: broadcast flavour, FALSE: mpmc flavour
           WaitKind,   \* "busy" | "yield" (YieldingWait, zero spins) | "block" (BlockingWait, zero spins)
+                      \* | "fut" (futures queue: FutWait with zero spins, Sink/Stream calls, tasks)
           Threads,    \* set of thread ids (positive integers); thread 0 runs Final
           Prog,       \* [Threads -> Seq(op)]   op = [op, h, new]
           Final,      \* Seq(op) for thread 0
           Senders0,   \* set of initial sender handle names
           Recv0,      \* [initial receiver handle name -> stream name]
           StreamSeq0, \* the initial streams in creation order (= order in the published list)
+          NotifyOnEmptyPoll, \* TRUE: the repaired Stream::poll (an empty poll wakes parked senders); FALSE: the
+                             \* original code, a seeded specification mutant that TLC must refute (lost wake-up)
           LastStreamStays, \* TRUE: the repaired remove_reader (the last stream stays registered); FALSE: the
                            \* original code, kept as a seeded specification mutant (TLC must refute it)
           RecordHist, \* keep the op history (behaviour generation) or not (exhaustive checking)
@@ -45,7 +48,7 @@ Without(q, s) == SelectSeq(q, LAMBDA x : x # s)
 
 NoLoc == [h |-> "", newh |-> "", hd |-> 0, tcv |-> 0, gp |-> 0, gi |-> 0, md |-> 0, far |-> FALSE,
           mode |-> "", p |-> 0, single |-> FALSE, astate |-> "", val |-> -1, seq |-> 0, cur |-> 0,
-          block |-> FALSE, k |-> -1, s |-> "", op |-> ""]
+          block |-> FALSE, k |-> -1, s |-> "", op |-> "", fut |-> ""]
 
 InitStreams == {Recv0[h] : h \in DOMAIN Recv0}
 RECURSIVE SetToSeq(_)
@@ -58,7 +61,10 @@ Init ==
             pos |-> [s \in InitStreams |-> 0],
             ncons |-> [s \in InitStreams |-> Cardinality({h \in DOMAIN Recv0 : Recv0[h] = s})],
             gptr |-> 0, groups |-> (0 :> StreamSeq0), nextg |-> 1,
-            noR |-> FALSE, lock |-> -1, cvw |-> {}, woken |-> {}]
+            noR |-> FALSE, lock |-> -1, cvw |-> {}, woken |-> {},
+            clock |-> -1, plock |-> -1,      \* holders of the consumer / producer parked-list mutexes
+            cpark |-> {}, ppark |-> {},      \* parked tasks (task id = thread id)
+            notified |-> {}]
   /\ hnd = [h \in Senders0 \cup DOMAIN Recv0 |->
               IF h \in Senders0
               THEN [kind |-> "S", st |-> IF Cardinality(Senders0) = 1 THEN "Uni" ELSE "Multi", stream |-> ""]
@@ -93,6 +99,9 @@ Ret(t, r) == thr' = [thr EXCEPT ![t] = [@ EXCEPT !.pc = "idle", !.l = NoLoc,
 RetVal(t, v) == thr' = [thr EXCEPT ![t] = [@ EXCEPT !.pc = "idle", !.l = NoLoc,
                                                     !.res = Append(@, [op |-> L(t).op, h |-> L(t).h, k |-> "Val", v |-> v])]]
 
+\* a result of try_send: returned to the caller, or handed back to send_or_park when called from start_send
+SRet(t, r) == IF L(t).fut = "send" THEN Go(t, "fs_res", [L(t) EXCEPT !.s = r]) ELSE Ret(t, r)
+
 \* op descriptor for lockstep replay: <<thread, kind, location, value, ok>>; "*" = not compared
 Emit(t, kind, loc, val, ok) ==
   /\ hist' = IF RecordHist THEN Append(hist, <<t, kind, loc, val, ok>>) ELSE hist
@@ -115,8 +124,8 @@ AllOthersDone == \A u \in Threads : thr[u].pc = "idle" /\ thr[u].prog = <<>>
 MinPos == IF Published = {} THEN mem.head ELSE
           LET S0 == {mem.pos[s] : s \in Published} IN CHOOSE x \in S0 : \A y \in S0 : x <= y
 ExpFinal(op) ==
-  CASE op.op = "send" -> IF mem.noR THEN "Disc" ELSE IF mem.head - MinPos >= N THEN "Full" ELSE "Ok"
-    [] op.op \in {"recv", "view"} ->
+  CASE op.op \in {"send", "ssend"} -> IF mem.noR THEN "Disc" ELSE IF mem.head - MinPos >= N THEN "Full" ELSE "Ok"
+    [] op.op \in {"recv", "view", "poll"} ->
          LET s == hnd[op.h].stream IN
          IF mem.pos[s] < mem.head THEN "Val" ELSE IF mem.writers = 0 THEN "Disc" ELSE "Empty"
     [] OTHER -> ""
@@ -128,6 +137,8 @@ Start(t) ==
   /\ LET op == Head(thr[t].prog)
          l0 == [NoLoc EXCEPT !.h = op.h, !.newh = op.new, !.op = op.op]
          first == CASE op.op = "send" -> "s_sig"
+                    [] op.op \in {"ssend", "fsend"} -> "fs_lock"
+                    [] op.op \in {"poll", "frecv", "frecv_all"} -> "r_sig"
                     [] op.op \in {"recv", "brecv"} -> "r_sig"
                     [] op.op = "view" -> "r_sig"
                     [] op.op = "add_stream" -> "a_gp"
@@ -135,16 +146,24 @@ Start(t) ==
                     [] op.op \in {"drop", "unsub"} -> IF hnd[op.h].kind = "S" THEN "ds_sub" ELSE "dr_sub"
      IN /\ thr' = [thr EXCEPT ![t] = [@ EXCEPT !.pc = first, !.prog = Tail(@),
                                              !.l = [l0 EXCEPT !.block = (op.op = "brecv"),
-                                                              !.k = IF op.op = "send" THEN gh.nval ELSE -1]]]
-        /\ gh' = [Pre(t) EXCEPT !.nval = IF op.op = "send" THEN @ + 1 ELSE @,
+                                                              !.fut = CASE op.op \in {"ssend", "fsend"} -> "send"
+                                                                        [] op.op \in {"poll", "frecv", "frecv_all"} -> "poll"
+                                                                        \* FutInnerRecv::try_recv: try_recv, then notify_all
+                                                                        [] op.op = "recv" /\ WaitKind = "fut" -> "direct"
+                                                                        [] OTHER -> "",
+                                                              !.k = IF op.op \in {"send", "ssend", "fsend"}
+                                                                    THEN gh.nval ELSE -1]]]
+        /\ gh' = [Pre(t) EXCEPT !.nval = IF op.op \in {"send", "ssend", "fsend"} THEN @ + 1 ELSE @,
                                 !.expq = IF t = 0 THEN Append(@, ExpFinal(op)) ELSE @]
   /\ Emit(t, "call", "-", "*", TRUE)
-  /\ UNCHANGED <<mem, hnd>>
+  /\ mem' = IF Head(thr[t].prog).op \in {"ssend", "fsend", "poll", "frecv", "frecv_all"}
+            THEN [mem EXCEPT !.notified = @ \ {t}] ELSE mem
+  /\ UNCHANGED hnd
 
 (* ------------------------------------------------------------------ try_send *)
 SSig(t) == /\ PC(t) = "s_sig"
            /\ Emit(t, "load", "signal", IF mem.noR THEN 2 ELSE 0, TRUE)
-           /\ IF mem.noR THEN Ret(t, "Disc")
+           /\ IF mem.noR THEN SRet(t, "Disc")
               ELSE Goto(t, IF hnd[H(t)].st = "Uni" THEN "ss_head" ELSE "s_wr")
            /\ Ghost(t) /\ UNCHANGED <<mem, hnd>>
 
@@ -188,7 +207,7 @@ GRd(t) == /\ PC(t) = "g_rd"
                         [L(t) EXCEPT !.md = Max2(@, L(t).hd - rp), !.gi = @ + 1])
           /\ Ghost(t) /\ UNCHANGED <<mem, hnd>>
 
-Full(t) == Ret(t, "Full")
+Full(t) == SRet(t, "Full")
 
 GChk(t) ==
   /\ PC(t) = "g_chk"
@@ -269,13 +288,14 @@ WTag(t) == /\ PC(t) = "w_tag"
            /\ Goto(t, "w_pub")
            /\ UNCHANGED hnd
 
-NeedsNotify == WaitKind = "block"
+NeedsNotify == WaitKind \in {"block", "fut"}
+NotifyEntry == IF WaitKind = "fut" THEN "fn_lock" ELSE "n_lock"
 
 WPub(t) == /\ PC(t) = "w_pub"
            /\ LET i == Idx(L(t).hd) IN
               /\ Emit(t, "store", TagLoc(i), L(t).hd, TRUE)
               /\ mem' = [mem EXCEPT !.tag[i] = L(t).hd]
-           /\ IF NeedsNotify THEN Go(t, "n_lock", [L(t) EXCEPT !.s = "Ok"]) ELSE Ret(t, "Ok")
+           /\ IF NeedsNotify THEN Go(t, NotifyEntry, [L(t) EXCEPT !.s = "Ok", !.mode = "in_try"]) ELSE SRet(t, "Ok")
            /\ Ghost(t) /\ UNCHANGED hnd
 
 (* BlockingWait::notify = lock; notify_all; unlock. Used after a successful send and by a sender's drop *)
@@ -338,7 +358,9 @@ RTag(t) ==
              ELSE Goto(t, IF BCAST THEN "r_pin" ELSE "r_recheck") /\ Ghost(t)
   /\ UNCHANGED <<mem, hnd>>
 
-EmptyRes(t) == IF L(t).block THEN Goto(t, "b_cnt")
+EmptyRes(t) == IF L(t).fut = "poll" THEN Goto(t, IF NotifyOnEmptyPoll THEN "pe_lock" ELSE "pk_cnt")
+               ELSE IF L(t).fut = "direct" THEN Go(t, "pd_lock", [L(t) EXCEPT !.s = "Empty"])
+               ELSE IF L(t).block THEN Goto(t, "b_cnt")
                ELSE Ret(t, "Empty")
 EmptyBad(t) == {}
 
@@ -353,7 +375,8 @@ RWrF(t) == /\ PC(t) = "r_wrf"
            /\ Goto(t, "r_tag2") /\ Ghost(t) /\ UNCHANGED <<mem, hnd>>
 
 DiscBad(t) == IF mem.writers # 0 \/ mem.pos[S(t)] # Len(gh.log) THEN {"C07"} ELSE {}
-DiscRes(t) == IF L(t).block THEN Ret(t, "Err") ELSE Ret(t, "Disc")
+DiscRes(t) == IF L(t).fut = "direct" THEN Go(t, "pd_lock", [L(t) EXCEPT !.s = "Disc"])
+              ELSE IF L(t).block THEN Ret(t, "Err") ELSE Ret(t, "Disc")
 
 RTag2(t) == /\ PC(t) = "r_tag2"
             /\ LET i == Idx(L(t).p) IN
@@ -414,6 +437,8 @@ RFence(t) == /\ PC(t) = "r_fence"
              /\ Ghost(t) /\ UNCHANGED <<mem, hnd>>
 
 \* move-out flavour: the consumer now owns the value (a view destroys it in place); it must have been owned
+\* a delivered value: returned, or (Stream::poll) the producers are notified first
+GotVal(t) == IF L(t).fut \in {"poll", "direct"} THEN Goto(t, "pn_lock") ELSE RetVal(t, L(t).val)
 Deliver(t) == [Pre(t) EXCEPT !.sgot[S(t)] = Append(@, L(t).val),
                              !.inq = IF BCAST THEN @ ELSE @ \ {L(t).val},
                              !.bad = @ \cup (IF ~BCAST /\ L(t).val \notin gh.inq THEN {"C05"} ELSE {})]
@@ -423,11 +448,11 @@ RCommit(t) ==
   /\ IF L(t).astate = "Single"
      THEN /\ Emit(t, "store", PosLoc(S(t)), L(t).p + 1, TRUE)
           /\ mem' = [mem EXCEPT !.pos[S(t)] = L(t).p + 1]
-          /\ gh' = Deliver(t) /\ RetVal(t, L(t).val)
+          /\ gh' = Deliver(t) /\ GotVal(t)
      ELSE LET ok == mem.pos[S(t)] = L(t).p IN
           /\ Emit(t, "cas", PosLoc(S(t)), mem.pos[S(t)], ok)
           /\ IF ok THEN /\ mem' = [mem EXCEPT !.pos[S(t)] = L(t).p + 1]
-                        /\ gh' = Deliver(t) /\ RetVal(t, L(t).val)
+                        /\ gh' = Deliver(t) /\ GotVal(t)
              ELSE /\ Go(t, "r_tag", [L(t) EXCEPT !.p = mem.pos[S(t)]])
                   /\ Ghost(t) /\ UNCHANGED mem
   /\ UNCHANGED hnd
@@ -435,7 +460,7 @@ RCommit(t) ==
 VCommit(t) == /\ PC(t) = "v_commit"
               /\ Emit(t, "store", PosLoc(S(t)), L(t).p + 1, TRUE)
               /\ mem' = [mem EXCEPT !.pos[S(t)] = L(t).p + 1]
-              /\ gh' = Deliver(t) /\ RetVal(t, L(t).val)
+              /\ gh' = Deliver(t) /\ GotVal(t)
               /\ UNCHANGED hnd
 
 (* blocking recv: cursor reload, then Wait::wait on the slot of that count *)
@@ -493,6 +518,99 @@ BwUnlock(t) == /\ PC(t) = "bw_unlock"
 BwC3(t) == Chk1(t, "bw_c3", "bw_c4")
 BwC4(t) == Chk2(t, "bw_c4", "r_single", "bw_lock")
 
+(* ------------------------------------------------------------------ futures layer (WaitKind = "fut") *)
+(* FutWait::notify on the consumer list: lock; take the parked tasks out; unlock; then notify them *)
+FnLock(t) == /\ PC(t) = "fn_lock" /\ mem.clock = -1
+             /\ Emit(t, "lock", "cons_parked", "*", TRUE)
+             /\ mem' = [mem EXCEPT !.clock = t]
+             /\ Goto(t, "fn_unlock") /\ Ghost(t) /\ UNCHANGED hnd
+FnUnlock(t) == /\ PC(t) = "fn_unlock"
+               /\ Emit(t, "unlock", "cons_parked", "*", TRUE)
+               /\ mem' = [mem EXCEPT !.clock = -1, !.notified = @ \cup mem.cpark, !.cpark = {}]
+               /\ IF L(t).mode = "in_try"
+                  THEN SRet(t, "Ok")          \* the notify inside try_send: back to the caller / to send_or_park
+                  ELSE Ret(t, L(t).s)          \* start_send's own notify, or a sender's drop
+               /\ Ghost(t) /\ UNCHANGED hnd
+
+(* Sink::start_send = send_or_park with zero spins: lock the producer list, try_send, park under the lock on Full *)
+FsLock(t) == /\ PC(t) = "fs_lock" /\ mem.plock = -1
+             /\ Emit(t, "lock", "prod_parked", "*", TRUE)
+             /\ mem' = [mem EXCEPT !.plock = t]
+             /\ Goto(t, "s_sig") /\ Ghost(t) /\ UNCHANGED hnd
+\* try_send came back with L(t).s: Full parks the task (same step as the unlock), then the list is unlocked
+FsRes(t) == /\ PC(t) = "fs_res"
+            /\ Emit(t, "unlock", "prod_parked", "*", TRUE)
+            /\ mem' = [mem EXCEPT !.plock = -1, !.ppark = IF L(t).s = "Full" THEN @ \cup {t} ELSE @]
+            /\ CASE L(t).s = "Ok" -> Go(t, "fn_lock", [L(t) EXCEPT !.mode = "own"])    \* start_send's own notify
+                 [] L(t).s = "Full" -> IF L(t).op = "fsend" THEN Goto(t, "tw") ELSE Ret(t, "Full")
+                 [] OTHER -> Ret(t, L(t).s)
+            /\ Ghost(t) /\ UNCHANGED hnd
+
+(* Stream::poll, value taken: prod_wait.notify_all() = lock; notify every parked sender; unlock *)
+PnLock(t) == /\ PC(t) = "pn_lock" /\ mem.plock = -1
+             /\ Emit(t, "lock", "prod_parked", "*", TRUE)
+             /\ mem' = [mem EXCEPT !.plock = t, !.notified = @ \cup mem.ppark, !.ppark = {}]
+             /\ Goto(t, "pn_unlock") /\ Ghost(t) /\ UNCHANGED hnd
+PnUnlock(t) == /\ PC(t) = "pn_unlock"
+               /\ Emit(t, "unlock", "prod_parked", "*", TRUE)
+               /\ mem' = [mem EXCEPT !.plock = -1]
+               /\ IF L(t).op = "frecv_all"
+                  THEN thr' = [thr EXCEPT ![t] = [@ EXCEPT !.pc = "recall",
+                                                           !.res = Append(@, [op |-> "poll", h |-> L(t).h, k |-> "Val", v |-> L(t).val])]]
+                  ELSE RetVal(t, L(t).val)
+               /\ Ghost(t) /\ UNCHANGED hnd
+(* direct try_recv on a futures receiver that found nothing: notify_all, then the result *)
+PdLock(t) == /\ PC(t) = "pd_lock" /\ mem.plock = -1
+             /\ Emit(t, "lock", "prod_parked", "*", TRUE)
+             /\ mem' = [mem EXCEPT !.plock = t, !.notified = @ \cup mem.ppark, !.ppark = {}]
+             /\ Goto(t, "pd_unlock") /\ Ghost(t) /\ UNCHANGED hnd
+PdUnlock(t) == /\ PC(t) = "pd_unlock"
+               /\ Emit(t, "unlock", "prod_parked", "*", TRUE)
+               /\ mem' = [mem EXCEPT !.plock = -1]
+               /\ Ret(t, L(t).s) /\ Ghost(t) /\ UNCHANGED hnd
+(* Stream::poll, nothing there: wake the senders (a transient pin may have parked one), reload the cursor,
+   park under the consumer-list lock after re-checking, sleep, NotReady *)
+PeLock(t) == /\ PC(t) = "pe_lock" /\ mem.plock = -1
+             /\ Emit(t, "lock", "prod_parked", "*", TRUE)
+             /\ mem' = [mem EXCEPT !.plock = t, !.notified = @ \cup mem.ppark, !.ppark = {}]
+             /\ Goto(t, "pe_unlock") /\ Ghost(t) /\ UNCHANGED hnd
+PeUnlock(t) == /\ PC(t) = "pe_unlock"
+               /\ Emit(t, "unlock", "prod_parked", "*", TRUE)
+               /\ mem' = [mem EXCEPT !.plock = -1]
+               /\ Goto(t, "pk_cnt") /\ Ghost(t) /\ UNCHANGED hnd
+PkCnt(t) == /\ PC(t) = "pk_cnt"
+            /\ Emit(t, "load", PosLoc(S(t)), mem.pos[S(t)], TRUE)
+            /\ Go(t, "pk_lock", [L(t) EXCEPT !.seq = mem.pos[S(t)]])
+            /\ Ghost(t) /\ UNCHANGED <<mem, hnd>>
+PkLock(t) == /\ PC(t) = "pk_lock" /\ mem.clock = -1
+             /\ Emit(t, "lock", "cons_parked", "*", TRUE)
+             /\ mem' = [mem EXCEPT !.clock = t]
+             /\ Goto(t, "pk_c1") /\ Ghost(t) /\ UNCHANGED hnd
+PkC1(t) == Chk1(t, "pk_c1", "pk_c2")
+PkC2(t) == Chk2(t, "pk_c2", "pk_unlock_retry", "pk_unlock_park")
+PkUnlockRetry(t) == /\ PC(t) = "pk_unlock_retry"
+                    /\ Emit(t, "unlock", "cons_parked", "*", TRUE)
+                    /\ mem' = [mem EXCEPT !.clock = -1]
+                    /\ Goto(t, "r_single") /\ Ghost(t) /\ UNCHANGED hnd
+PkUnlockPark(t) == /\ PC(t) = "pk_unlock_park"
+                   /\ Emit(t, "unlock", "cons_parked", "*", TRUE)
+                   /\ mem' = [mem EXCEPT !.clock = -1, !.cpark = @ \cup {t}]
+                   /\ Goto(t, "pk_sleep") /\ Ghost(t) /\ UNCHANGED hnd
+PkSleep(t) == /\ PC(t) = "pk_sleep"
+              /\ Emit(t, "sleep", "-", "*", TRUE)
+              /\ IF L(t).op = "poll" THEN Ret(t, "Empty") ELSE Goto(t, "tw")
+              /\ Ghost(t) /\ UNCHANGED <<mem, hnd>>
+
+(* a task that got NotReady waits for its notification, then the harness calls again *)
+TaskWake(t) == /\ PC(t) = "tw" /\ t \in mem.notified
+               /\ Emit(t, "taskwait", "*", "*", TRUE)
+               /\ Goto(t, "recall") /\ Ghost(t) /\ UNCHANGED <<mem, hnd>>
+Recall(t) == /\ PC(t) = "recall"
+             /\ Emit(t, "call", "-", "*", TRUE)
+             /\ mem' = [mem EXCEPT !.notified = @ \ {t}]
+             /\ Goto(t, IF L(t).fut = "send" THEN "fs_lock" ELSE "r_sig")
+             /\ Ghost(t) /\ UNCHANGED hnd
+
 (* ------------------------------------------------------------------ add_stream *)
 AGp(t) == /\ PC(t) = "a_gp"
           /\ Emit(t, "load", "gptr", "*", TRUE)
@@ -542,7 +660,7 @@ DsSub(t) == /\ PC(t) = "ds_sub"
             /\ mem' = [mem EXCEPT !.writers = @ - 1]
             /\ Goto(t, "ds_f") /\ Ghost(t) /\ UNCHANGED hnd
 DsF(t) == /\ PC(t) = "ds_f" /\ Emit(t, "fence", "-", "*", TRUE)
-          /\ IF NeedsNotify THEN Go(t, "n_lock", [L(t) EXCEPT !.s = "Ok"]) ELSE Ret(t, "Ok")
+          /\ IF NeedsNotify THEN Go(t, NotifyEntry, [L(t) EXCEPT !.s = "Ok", !.mode = "drop"]) ELSE Ret(t, "Ok")
           /\ Ghost(t) /\ UNCHANGED <<mem, hnd>>
 
 DropRes(t, last) == IF L(t).op = "unsub" THEN (IF last THEN "True" ELSE "False") ELSE "Ok"
@@ -587,7 +705,17 @@ DrHas(t) == /\ PC(t) = "dr_has"
             /\ Emit(t, "load", "gptr", "*", TRUE)
             /\ Goto(t, IF Len(mem.groups[mem.gptr]) = 0 THEN "dr_set" ELSE "dr_f") /\ Ghost(t) /\ UNCHANGED <<mem, hnd>>
 DrF(t) == /\ PC(t) = "dr_f" /\ Emit(t, "fence", "-", "*", TRUE)
-          /\ Ret(t, L(t).s) /\ Ghost(t) /\ UNCHANGED <<mem, hnd>>
+          /\ IF WaitKind = "fut" THEN Goto(t, "dp_lock") ELSE Ret(t, L(t).s)
+          /\ Ghost(t) /\ UNCHANGED <<mem, hnd>>
+\* Drop for FutInnerRecv: prod_wait.notify() (FutWait::notify on the producer list)
+DpLock(t) == /\ PC(t) = "dp_lock" /\ mem.plock = -1
+             /\ Emit(t, "lock", "prod_parked", "*", TRUE)
+             /\ mem' = [mem EXCEPT !.plock = t]
+             /\ Goto(t, "dp_unlock") /\ Ghost(t) /\ UNCHANGED hnd
+DpUnlock(t) == /\ PC(t) = "dp_unlock"
+               /\ Emit(t, "unlock", "prod_parked", "*", TRUE)
+               /\ mem' = [mem EXCEPT !.plock = -1, !.notified = @ \cup mem.ppark, !.ppark = {}]
+               /\ Ret(t, L(t).s) /\ Ghost(t) /\ UNCHANGED hnd
 
 (* ------------------------------------------------------------------ next-state *)
 Step(t) ==
@@ -599,9 +727,12 @@ Step(t) ==
   \/ RDchk(t) \/ RPin(t) \/ RRecheck(t) \/ RUnpin(t) \/ RReload(t) \/ RPy(t) \/ RFence(t) \/ RCommit(t)
   \/ VCommit(t) \/ BCnt(t) \/ BC1(t) \/ BC2(t) \/ ByYield(t) \/ ByC1(t) \/ ByC2(t) \/ BwLock(t) \/ BwC1(t) \/ BwC2(t) \/ BwUnlockRet(t)
   \/ BwWait(t) \/ BwWake(t) \/ BwUnlock(t) \/ BwC3(t) \/ BwC4(t)
+  \/ FnLock(t) \/ FnUnlock(t) \/ FsLock(t) \/ FsRes(t) \/ PnLock(t) \/ PnUnlock(t) \/ PeLock(t) \/ PeUnlock(t)
+  \/ PkCnt(t) \/ PkLock(t) \/ PkC1(t) \/ PkC2(t) \/ PkUnlockRetry(t) \/ PkUnlockPark(t) \/ PkSleep(t)
+  \/ TaskWake(t) \/ Recall(t) \/ PdLock(t) \/ PdUnlock(t)
   \/ AGp(t) \/ ARaw(t) \/ AF1(t) \/ ACas(t) \/ AF2(t) \/ AF3(t)
   \/ CsAdd(t) \/ CrAdd(t) \/ DsSub(t) \/ DsF(t) \/ DrSub(t) \/ DrGp(t) \/ DrLp(t) \/ DrSet(t) \/ DrCas(t)
-  \/ DrF1(t) \/ DrHas(t) \/ DrF(t)
+  \/ DrF1(t) \/ DrHas(t) \/ DrF(t) \/ DpLock(t) \/ DpUnlock(t)
 
 Next == \E t \in AllT : Step(t)
 Spec == Init /\ [][Next]_vars
@@ -629,6 +760,15 @@ CanMove(t) == ENABLED Step(t)
 Quiescent == \A t \in AllT : (thr[t].pc = "idle" /\ (thr[t].prog = <<>> \/ (t = 0 /\ ~AllOthersDone))) \/ PC(t) = "bw_wake"
 NoStuck == ~(Quiescent /\ \E t \in AllT : PC(t) = "bw_wake" /\ t \notin mem.woken /\
               (mem.writers = 0 \/ mem.tag[Idx(mem.pos[S(t)])] = mem.pos[S(t)]))
+(* C14 at op level: when nothing can move any more, no task waits for a notification although the queue
+   could make progress for it *)
+TaskCanProgress(t) ==
+  IF L(t).fut = "send" THEN mem.noR \/ (mem.head - MinPos < N /\ mem.refcnt[Idx(mem.head)] = 0)
+  ELSE mem.writers = 0 \/ mem.tag[Idx(mem.pos[S(t)])] = mem.pos[S(t)]
+FutQuiescent == \A t \in AllT : \/ (thr[t].pc = "idle" /\ (thr[t].prog = <<>> \/ (t = 0 /\ ~AllOthersDone)))
+                                 \/ (PC(t) = "tw" /\ t \notin mem.notified)
+NoLostWakeup == ~(FutQuiescent /\ \E t \in AllT : PC(t) = "tw" /\ t \notin mem.notified /\ TaskCanProgress(t))
+
 (* busy waiting: a spinning consumer whose value is there always gets out: checked as "no cycle" by the
    constraint-free state graph being finite and NoBad; the blocking strategy is checked by NoStuck *)
 
